@@ -564,3 +564,59 @@ pub fn rot_unbounded(cursor: usize, queued_mask: u8, ends_mask: u8) {
     vcover!(n2 == 2, "cover:one_group_removed");
     core::mem::forget(m);
 }
+
+/// Step(try_push) on the bounded merge: a source added while the merge is being
+/// consumed is held and marked ready (so the next poll asks it), or - when the
+/// merge is full - handed back untouched; no source is polled, moved or dropped.
+pub fn step_push(c: &MCfg) {
+    gh::reset();
+    let p = fub::gen_pre(c.cap, false);
+    fub::gen_ghost(&p, 0);
+    let gh = g();
+    let inner = fub::build_g(&p, 0, 0, mk);
+    let mut m = MergeBounded::verif_from_parts(inner);
+    let id = c.cap as u8;
+    let wakes0 = gh.task_wakes;
+    let a0 = gh::allocs();
+    gh::alloc_track(true);
+    let r = m.try_push(Src { id });
+    gh::alloc_track(false);
+    vassert!(gh::allocs() == a0, "C18:MergeBounded allocated during a push");
+    let s = fub::snap(m.verif_inner(), c.cap, p.last_t);
+    let occ = fub::snap_occ_pub(&s);
+    match r {
+        Ok(()) => {
+            let slot = p.free_head;
+            vassert!(p.filled < c.cap && s.filled == p.filled + 1, "C11:pushed source not held");
+            vassert!(slot < c.cap && occ[slot % MAXS], "C11:pushed source not held");
+            match v::fub_peek(m.verif_inner(), slot % MAXS) {
+                Some(ch) => vassert!(ch.id == id, "C11:slot holds another source than the one pushed"),
+                None => vassert!(false, "C11:pushed source not held"),
+            }
+            vassert!(s.queued(slot), "C01:pushed source not marked ready");
+            vassert!(s.qlen == p.qlen + if p.queued(slot) { 0 } else { 1 }, "C12:push changed the ready queue by more than its own entry");
+            vcover!(true, "cover:push_ok");
+        }
+        Err(back) => {
+            vassert!(p.filled == c.cap, "C11:push refused although there is room");
+            vassert!(back.id == id && gh.drops[id as usize] == 0, "C11:refused try_push did not return the same source");
+            vassert!(s.filled == p.filled && s.qlen == p.qlen, "C11:refused push disturbed the merge");
+            core::mem::forget(back);
+            vcover!(true, "cover:push_refused");
+        }
+    }
+    let mut i = 0;
+    while i < c.cap {
+        if p.occ[i] {
+            vassert!(occ[i] && gh.drops[i] == 0, "C11:push removed or dropped another source");
+            if let Some(ch) = v::fub_peek(m.verif_inner(), i) {
+                vassert!(gh.addr[i] == 0 || gh.addr[i] == ch as *const Src as usize, "C08:held source moved");
+            }
+        }
+        i += 1;
+    }
+    vassert!(gh.total_child_polls == 0, "C12:push polled a source");
+    vassert!(gh.task_wakes[0] == wakes0[0] && gh.task_wakes[1] == wakes0[1], "C14:push invoked a task waker");
+    fub::check_inv_post(&s, 0, fub::M_INV);
+    core::mem::forget(m);
+}
